@@ -120,6 +120,29 @@ def common_pad_integral(rep, F, E, names):
             if prov.strip_args(cdef(t)).endswith('Formatter::pad_integral') and len(t['args']) >= 2:
                 n_pad += 1
                 srcs = E.arg_prov(fn, t, 1).all() | R.control_sources(F, E, fn, t['args'][1])
+                # the flag computed by a local helper (`fn sign_is_non_negative(sign) -> bool`): a constant selected under a
+                # switch on the helper's parameter derives from the argument handed to the helper
+                hl = t['args'][1]['pl']['l'] if t['args'][1]['k'] in ('copy', 'move') else None
+                hops = 0
+                while hl is not None and hops < 6:
+                    hops += 1
+                    dsl = [(b2, x) for b2, x in fn.calls() if x.get('dest') and not x['dest']['p'] and x['dest']['l'] == hl]
+                    asg = [st for b2, st in fn.stmts() if st['lhs']['l'] == hl and not st['lhs']['p']]
+                    if len(dsl) == 1 and not asg:
+                        ct = dsl[0][1]
+                        g = F.fns.get(ct['callee'].get('resolved') or '')
+                        if g is not None:
+                            ret = {'k': 'copy', 'pl': {'l': 0, 'p': []}}
+                            gs = R.control_sources(F, E, g, ret)
+                            for s0 in gs:
+                                m0 = re.match(r'^param:(\d+)', s0)
+                                if m0 and int(m0.group(1)) - 1 < len(ct['args']):
+                                    srcs |= E.arg_prov(fn, ct, int(m0.group(1)) - 1).all()
+                        break
+                    if len(asg) == 1 and asg[0]['rv']['r'] == 'use' and asg[0]['rv']['op']['k'] in ('copy', 'move') and not asg[0]['rv']['op']['pl']['p']:
+                        hl = asg[0]['rv']['op']['pl']['l']
+                    else:
+                        break
                 ok = any('.sign' in s or s.startswith('param:') for s in srcs) and not all(s.startswith('lit:') for s in srcs)
                 key = '%s|pad_integral:is_nonnegative' % fn.key
                 if ok:
